@@ -213,6 +213,40 @@ func hostileChecks(report0 func(prop, key, script, what string)) int {
 	return n
 }
 
+// eofChecks: the input ends (no quit) while a search is running that will never end by itself - however it
+// was asked for (`go infinite`, `go depth 0`, a depth no search reaches, a bare go): the driver shuts down.
+func eofChecks(report func(prop, key, script, what string)) int {
+	ctx := context.Background()
+	n := 0
+	for _, goLine := range []string{"go infinite", "go depth 0", "go depth -1", "go", "go depth 100", "go movetime 60000", "go wtime 600000 btime 600000"} {
+		for _, pre := range []string{"", "setoption name Depth value 0"} {
+			n++
+			e, opts := bundledEngine(ctx, "morlock", 0, 0, 0, false, 1)
+			in := make(chan string, 16)
+			_, out := uci.NewDriver(ctx, e, in, opts...)
+			closed := make(chan struct{})
+			go func() {
+				for range out {
+				}
+				close(closed)
+			}()
+			if pre != "" {
+				in <- pre
+			}
+			in <- "position startpos"
+			in <- goLine
+			time.Sleep(100 * time.Millisecond)
+			close(in)
+			select {
+			case <-closed:
+			case <-time.After(8 * time.Second):
+				report("C16", "no-shutdown", pre+"; position startpos; "+goLine+"; [end of input]", "the driver did not close its output after the end of input")
+			}
+		}
+	}
+	return n
+}
+
 // slowConsumerChecks: the reader of the driver's output pauses (a GUI busy redrawing) while a search
 // of a position without legal moves floods the forwarder with iterations; then quit / end of input
 // arrives. The driver must still close its output.
